@@ -501,6 +501,7 @@ int main(int argc, char** argv)
     cx.opt = parse_options(argc, argv);
     g_ctx() = &cx;
     install_crash_handlers();
+    cx.termination_only = cx.opt.prop == "C14" && cx.opt.replay.empty(); // C14 stage: execute everything, report only calls that do not return
     auto targets = load_targets(cx.opt, "red");
 
     if (!cx.opt.replay.empty())
@@ -591,7 +592,7 @@ int main(int argc, char** argv)
                     c.type = it.t;
                     fill_case_t(c, e, p, kind, s);
                     note_case(cx, c, e);
-                    RC_ASSERT(exec_case(cx, c, tg, e));
+                    RC_ASSERT(exec_case(cx, c, tg, e) || cx.termination_only);
                 },
                 md, params);
         }
